@@ -339,8 +339,13 @@ Definition c10_field_ok (l : c10_lang) (f : rfield) : bool :=
   | Some ds => forallb (c10_fdecor_ok (c10_cfg_of l)) ds
   | None => true
   end.
+(* decorators are pasted verbatim: balanced on their own; the Swift generic-constraint strings are split on `:` and
+   `&` by the back end, so they must be neutral tokens (no bracket, quote or comment character at all) *)
 Definition c10_decmap_ok (l : c10_lang) (m : decmap) : bool :=
-  forallb (fun kv => forallb (c10_raw_ok (c10_cfg_of l)) (snd kv)) m.
+  forallb (fun kv => match fst kv with
+                     | DKSwiftGenericConstraints => forallb c10_tok_ok (snd kv)
+                     | _ => forallb (c10_raw_ok (c10_cfg_of l)) (snd kv)
+                     end) m.
 Definition c10_variant_ok (l : c10_lang) (v : rvariant) : bool :=
   c10_member_id_ok (vid (variant_shared v)) && forallb c10_doc_ok (vcomments (variant_shared v)) &&
   match v with
